@@ -155,6 +155,8 @@ def do_roundtrip(w, s):
     if not m.gnodes(g):
         raise SkipStep()
     direct = entry.endswith('direct')
+    if not direct and m.gnodes(new):
+        raise SkipStep()      # the target id must hold nothing (re-import onto a live graph is C04/C05's business)
     # C01 is stated for string/int property values; a 'combine' merge leaves a list behind
     for k in m.gnodes(g):
         if any(not isinstance(v, (str, int)) or isinstance(v, bool) for v in m.nodes[k].values()):
